@@ -4,6 +4,8 @@ import (
 	"encoding/hex"
 	"errors"
 	"sync"
+	"sync/atomic"
+	"time"
 
 	"github.com/ostafen/clover/v2/store"
 )
@@ -26,6 +28,8 @@ type XStore struct {
 	// onWriteBegin, when set, runs once immediately before the next write transaction is opened (an interloper: another
 	// client's operation that commits between a caller's preparation and its transaction)
 	onWriteBegin func()
+	closeCalls   int64
+	closeDelay   time.Duration
 }
 
 var errInjected = errors.New("injected store fault")
@@ -98,7 +102,15 @@ func (s *XStore) Begin(update bool) (store.Tx, error) {
 	return &xTx{s: s, inner: tx}, nil
 }
 
-func (s *XStore) Close() error { return s.inner.Close() }
+// Close counts the calls that reach the store and, when closeDelay is set, holds each one open for that long (so that
+// overlapping DB.Close calls really overlap).
+func (s *XStore) Close() error {
+	atomic.AddInt64(&s.closeCalls, 1)
+	if s.closeDelay > 0 {
+		time.Sleep(s.closeDelay)
+	}
+	return s.inner.Close()
+}
 
 type xTx struct {
 	s        *XStore
